@@ -118,8 +118,11 @@ class StreamableIOBaseWrapper(miniaudio.StreamableSource):
             return False
 
         whence = 1 if origin == miniaudio.SeekOrigin.CURRENT else 0
-        self.reader.seek(offset, whence)
-        return True
+        expected = offset + (self.reader.tell() if whence == 1 else 0)
+
+        # The reader might not be able to honour the request (e.g. a buffered stream
+        # where data has been discarded), which must be reported back
+        return self.reader.seek(offset, whence) == expected
 
 
 class BufferedIOBaseWrapper(io.BufferedIOBase):
